@@ -101,13 +101,33 @@ bool FilteringAlgorithm::is_running()
 }
 
 
+#ifdef BFL_VERIF
+void FilteringAlgorithm::verif_lock_unlock()
+{
+    std::lock_guard<std::mutex> lk(mtx_run_);
+}
+
+
+void FilteringAlgorithm::verif_schedule_point(int point)
+{
+    static_cast<void>(point);
+}
+#endif
+
+
 void FilteringAlgorithm::filtering_recursion()
 {
     do
     {
+#ifdef BFL_VERIF
+        verif_schedule_point(0);
+#endif
         reset_ = false;
         filtering_step_ = 0;
 
+#ifdef BFL_VERIF
+        verif_schedule_point(1);
+#endif
         std::unique_lock<std::mutex> lk(mtx_run_);
         cv_run_.wait(lk, [this]{ return (this->run_ || this->teardown_); });
         try
@@ -122,6 +142,9 @@ void FilteringAlgorithm::filtering_recursion()
             teardown_ = true;
         }
 
+#ifdef BFL_VERIF
+        verif_schedule_point(2);
+#endif
         initialization_step();
 
         while (run_condition() && !teardown_ && !reset_)
@@ -130,8 +153,17 @@ void FilteringAlgorithm::filtering_recursion()
 
             ++filtering_step_;
         }
+#ifdef BFL_VERIF
+        verif_schedule_point(3);
+#endif
     }
     while (run_condition() && (run_ || reset_) && !teardown_);
 
+#ifdef BFL_VERIF
+    verif_schedule_point(4);
+#endif
     run_ = false;
+#ifdef BFL_VERIF
+    verif_schedule_point(5);
+#endif
 }
